@@ -548,3 +548,25 @@ Qed.
 Lemma enc_route_len8 : forall r k, enc_route r = Some k ->
   match r with RI _ | RU _ | RF _ => length k = 8%nat | _ => True end.
 Proof. intros [z|n|b|raw|] k H; cbn [enc_route] in H; try exact I; now injection H as <-. Qed.
+
+Theorem f64_bits_order_is_value_order : forall a b, a < 2 ^ 64 -> b < 2 ^ 64 ->
+  ((f_val a < f_val b)%Z -> f64_total_cmp a b = Lt) /\
+  (f_mag_scaled a <> 0 -> f_mag_scaled b <> 0 ->
+   bytes_cmp (enc_f64 a) (enc_f64 b) = Z.compare (f_val a) (f_val b)).
+Proof.
+  intros a b Ha Hb. split; [now apply f_val_lt_total|now apply enc_f64_value_order].
+Qed.
+
+(** the hypotheses above are satisfiable: 1.5 < 2.5, -2.5 < 1.5 *)
+Example f64_order_inhabited :
+  (f_val 4609434218613702656 < f_val 4612811918334230528)%Z /\
+  (f_val 13836183955189006336 < f_val 4609434218613702656)%Z /\
+  f_mag_scaled 4609434218613702656 <> 0.
+Proof. repeat split; vm_compute; congruence. Qed.
+
+(** [same_lane_key_order] applies, e.g., to the integer 7 and the integral double 9.0 *)
+Example same_lane_inhabited :
+  sval_wf (VInt 7) = true /\ sval_wf (VFloat 4621256167635550208) = true /\
+  saturates (VInt 7) = false /\ saturates (VFloat 4621256167635550208) = false /\
+  lane_of (VInt 7) = Some LI /\ lane_of (VFloat 4621256167635550208) = Some LI.
+Proof. repeat split; vm_compute; reflexivity. Qed.
